@@ -60,20 +60,22 @@ def build_source(rng, case, k):
     elif kind == 'same':
         ds['sc'] = ds['st'].copy()
     elif kind == 'merge2':
-        # templates 0 and 1 merged into a new cluster with the SAME number of spikes from each: the cluster
+        # two templates merged into a new cluster with the SAME number of spikes from each: the cluster
         # waveform is the plain mean of two templates (entries doubled so that it stays integral); a cluster
         # whose templates peak at different depths separates 'depth of the cluster' from 'depth of the template'
         st = np.asarray(ds['st'])
-        idx = np.nonzero(st <= 1)[0]
+        # (not always templates 0 and 1: the id of the dominant template need not be its rank among the contributors)
+        ta, tb = (0, 1) if nt < 3 or k % 2 else (nt - 2, nt - 1)
+        idx = np.nonzero((st == ta) | (st == tb))[0]
         h = len(idx) // 2
         if h == 0:
             kind = 'same'
             ds['sc'] = st.copy()
         else:
-            ds['T'][[0, 1]] *= 2
-            st[idx[:h]], st[idx[h:2 * h]] = 0, 1
+            ds['T'][[ta, tb]] *= 2
+            st[idx[:h]], st[idx[h:2 * h]] = ta, tb
             if len(idx) > 2 * h:
-                st[idx[2 * h]] = 0                                   # the odd spike stays in cluster 0 on its own
+                st[idx[2 * h]] = ta                                  # the odd spike stays in its own cluster
             ds['st'] = st
             sc = st.copy()
             sc[idx[:2 * h]] = nt
@@ -181,6 +183,14 @@ def convert_case(ctx, d, rng, case, k, prop):
                 problems.append(('C13.guard', 'the refused conversion (target named %s) wrote into the source directory' % alias))
                 break
         link.unlink()
+        if k % 3 == 1:
+            # one creator object, two conversions: an earlier conversion with ANOTHER label (or with one, when this
+            # case has none) leaves nothing behind in the next one
+            out0 = d / 'out0'
+            shutil.rmtree(out0, ignore_errors=True)
+            m0 = c.convert(out0, label='zz' if label != 'zz' else '', ampfactor=factor)
+            if m0 is not None:
+                m0.close()
         m2 = c.convert(out, label=label, ampfactor=factor)
         after = dir_digest(src)
         # ---- source frame (C13): names against the specification, bytes against the hashes
